@@ -136,7 +136,7 @@ def _wrap(cls: t.Any, name: str) -> None:
                         e["exc"] = f"{type(exc).__name__}: {exc}"[:160]
                         r = getattr(exc, "response", None)
                         if r:
-                            e["resp"] = _L(r)
+                            e["resp"] = _L(r[:100000])  # a notification is tens of octets; a huge one must not choke the validator (its prefix does not decode: verdict)
                     else:
                         e["msgs"] = [{"k": proj.kind_of(m), "id": _small(m.message_id), "dig": _dig(m)} for m in ret]
                     e["_options"] = getattr(self, "_packing_options", None)
